@@ -221,6 +221,24 @@ def put (cfg : Cfg) (s : Shard) (time : Nat) (data : Bytes) (timeRot : Bool) : S
       | none => (s1, 0)
       | some f => (appendRec cfg s1 w f time data, s1.lastID + 1)
 
+/-- fault: the body `WriteAt` of `writeSecond` fails after `k` bytes (disk full / file size limit). The header and `k` body bytes
+    are on disk behind the last valid record, `size` is NOT advanced, no bucket is registered, and the code drops the writing file
+    (`d.unrefFile(&d.writingFile)`), so the next put starts a new file and nothing is ever appended behind that garbage.
+    `keepFile = true` is the seeded variant that keeps writing to the same file. -/
+def putFail (keepFile : Bool) (cfg : Cfg) (s : Shard) (time : Nat) (data : Bytes) (timeRot : Bool) (k : Nat) : Shard :=
+  if tooBig data then s
+  else
+    let s1 := ensureWriting (rotateIfNeeded s data.length timeRot)
+    match s1.writing with
+    | none => s1
+    | some w =>
+      match findO s1.ofiles w with
+      | none => s1
+      | some f =>
+        let s2 := { s1 with disk := mapDisk s1.disk w (fun b =>
+                      writeAt b f.size (encHeader magicGood time data.length (cfg.crc data) ++ data.take k)) }
+        if keepFile then s2 else { unref s2 w with writing := none }
+
 /-! ### eraseBucket / GetBucket -/
 
 def eraseKnown (s : Shard) (b : Bucket) : Shard :=
